@@ -59,30 +59,56 @@ theorem sideFiles_pn (pd : Nat) (adr keep : List String) (g : DFile) (h : g ∈ 
   obtain ⟨a, _, e, _, rfl⟩ := h
   rfl
 
+theorem mem_removeLeftovers (pd : Nat) (d : List DFile) (g : DFile) :
+    g ∈ removeLeftovers pd d ↔ g ∈ d ∧ isAccOf pd g = false := by
+  simp [removeLeftovers, List.mem_filter]
+
+theorem isAccOf_pn (pd : Nat) (g : DFile) (h : isAccOf pd g = true) : g.pn = pd := by
+  cases g with
+  | txt p k => simp [isAccOf] at h
+  | acc p nm => simpa [isAccOf, DFile.pn] using h
+
 theorem cleanDir_sub (c : DelCfg) (pd : Nat) (adr : List String) (d : List DFile) (g : DFile)
     (h : g ∈ cleanDir c pd adr d) : g ∈ d := by
   unfold cleanDir at h
-  have h1 := ((mem_removeTxts _ _ _).mp h).1
-  cases hv : c.variant <;> simp only [hv] at h1
-  · exact h1
-  · exact (List.mem_filter.mp h1).1
+  cases hv : c.variant <;> simp only [hv] at h
+  · exact ((mem_removeTxts _ _ _).mp h).1
+  · have h1 := ((mem_removeLeftovers _ _ _).mp h).1
+    have h2 := ((mem_removeTxts _ _ _).mp h1).1
+    exact (List.mem_filter.mp h2).1
+
+/-- whatever survives the cleaning is none of the three txt files -/
+theorem cleanDir_not_txt (c : DelCfg) (pd : Nat) (adr : List String) (d : List DFile) (g : DFile)
+    (h : g ∈ cleanDir c pd adr d) : g ≠ .txt pd 0 ∧ g ≠ .txt pd 1 ∧ g ≠ .txt pd 2 := by
+  unfold cleanDir at h
+  cases hv : c.variant <;> simp only [hv] at h
+  · exact ((mem_removeTxts _ _ _).mp h).2
+  · exact ((mem_removeTxts _ _ _).mp ((mem_removeLeftovers _ _ _).mp h).1).2
+
+/-- the repaired code leaves no entry of accepted/ -/
+theorem cleanDir_no_acc (c : DelCfg) (hv : c.variant = .repaired) (pd : Nat) (adr : List String) (d : List DFile)
+    (g : DFile) (h : g ∈ cleanDir c pd adr d) : isAccOf pd g = false := by
+  unfold cleanDir at h
+  simp only [hv] at h
+  exact ((mem_removeLeftovers _ _ _).mp h).2
 
 theorem cleanDir_removed (c : DelCfg) (pd : Nat) (adr : List String) (d : List DFile) (g : DFile)
     (hg : g ∈ d) (hn : g ∉ cleanDir c pd adr d) : g.pn = pd := by
   apply Classical.byContradiction
   intro hne
   apply hn
+  have ht : g ≠ .txt pd 0 ∧ g ≠ .txt pd 1 ∧ g ≠ .txt pd 2 :=
+    ⟨fun e => hne (e ▸ rfl), fun e => hne (e ▸ rfl), fun e => hne (e ▸ rfl)⟩
   unfold cleanDir
-  rw [mem_removeTxts]
-  refine ⟨?_, ?_, ?_, ?_⟩
-  · cases hv : c.variant <;> simp only
-    · exact hg
+  cases hv : c.variant <;> simp only
+  · exact (mem_removeTxts _ _ _).mpr ⟨hg, ht⟩
+  · refine (mem_removeLeftovers _ _ _).mpr ⟨(mem_removeTxts _ _ _).mpr ⟨?_, ht⟩, ?_⟩
     · refine List.mem_filter.mpr ⟨hg, ?_⟩
       simp only [decide_eq_true_eq]
       exact fun hs => hne (sideFiles_pn _ _ _ _ hs)
-  · intro e; exact hne (e ▸ rfl)
-  · intro e; exact hne (e ▸ rfl)
-  · intro e; exact hne (e ▸ rfl)
+    · cases hacc : isAccOf pd g with
+      | false => rfl
+      | true => exact absurd (isAccOf_pn pd g hacc) hne
 
 /-! ### `delHeadCore` -/
 
